@@ -11,7 +11,13 @@ ENCODERS = ["fcp.serde:_encode_builtin_unsigned", "fcp.serde:_encode_builtin_sig
 DECODERS = ["fcp.serde:_decode_builtin_unsigned", "fcp.serde:_decode_builtin_signed", "fcp.serde:_decode_builtin_float",
             "fcp.serde:_decode_builtin_double", "fcp.serde:_decode_enum", "fcp.serde:_decode_str", "fcp.serde:_decode_struct",
             "fcp.serde:_decode_array", "fcp.serde:_decode_dynamic_array", "fcp.serde:_decode_optional", "fcp.serde:_decode"]
-BIT_LEMMAS = ["lemmas:word_bits_len", "lemmas:wire_chars_len"]
+BIT_LEMMAS = ["lemmas:word_bits_len", "lemmas:wire_chars_len", "lemmas:max_is_enum_max", "fcp.specs.enum:Enum.max"]
+DECODERS_PROVED = [d for d in DECODERS if d != "fcp.serde:_decode_struct"] + ["fcp.serde:_Buffer.push_bytes", "fcp.serde:decode"]
+REFLECTION = ["fcp.specs.type:NumericType.reflection", "fcp.specs.type:StringType.reflection", "fcp.specs.type:EnumType.reflection",
+              "fcp.specs.type:StructType.reflection", "fcp.specs.type:ArrayType.reflection", "fcp.specs.type:DynamicArrayType.reflection",
+              "fcp.specs.type:OptionalType.reflection", "fcp.specs.metadata:MetaData.reflection",
+              "fcp.specs.struct_field:StructField.reflection", "fcp.specs.enum:Enumeration.reflection",
+              "fcp.specs.signal_block:SignalBlock.reflection", "fcp.specs.impl:Impl.reflection"]
 
 CODEC_TRUSTED = [
     "CPython int semantics as encoded by PyVC (mathematical integers, floor division, shifts as *2^k and div 2^k)",
@@ -148,8 +154,49 @@ PLANS = {
                        ".attempt() plumbing and prove verdict == spec for all schemas; order independence follows because the spec is built from "
                        "count/membership only",
     },
+    "C12": {
+        "targets": REFLECTION,
+        "native": "reflect",
+        "trusted": [
+            "the serialisation half (the record conforms to the reflection schema and round-trips through the codec) is NOT proved: it needs the "
+            "codec theorem C01, whose decoder-side struct loop and spec-level lemma are still undischarged",
+            "reflection() of FcpV2, Struct, Enum, Service, Method (list comprehensions calling the element contracts) are not under contract",
+            "SignalBlock/Impl option dicts are open dicts: only `every called method exists and nothing but ValueError is raised` is proved for them",
+        ],
+        "explanation": "faithfulness half of the statement for the node kinds under contract: the type chain of every type constructor is proved "
+                       "equal to the flattened chain type_chain(t) of the spec (outermost first, with names, kinds and sizes), StructField / "
+                       "Enumeration / MetaData records are proved to carry exactly the declared values, and Impl.reflection is proved to call only "
+                       "methods that exist (the `refection` typo was found by this obligation and fixed)",
+    },
+    "C15": {
+        "targets": ["fcp.serde:_encode_struct", "fcp.encoding:PackedEncoder._generate_struct", "fcp.specs.v2:FcpV2.get_struct",
+                    "fcp.serde:_encode", "fcp.serde:encode"],
+        "native": "codec",
+        "trusted": [
+            "prelude fact: sorted(xs, key=field_id) depends only on the multiset of xs when ids are distinct (so two declaration orders of the "
+            "same fields give the same sorted list) - not machine-proved",
+            "the decoder's struct loop (_decode_struct) also iterates sorted(...) but its inductive step is not discharged; DBC and C signal "
+            "tables are functions of the layout (C05); the C++ templates are not reachable (see C03)",
+        ],
+        "explanation": "the Python encoder and the packed layout are proved to walk sorted(struct.fields, key=field_id): their results are "
+                       "wire_fields(sorted_fields(s), ...) / struct_names(sorted_fields(s), ...), which mention the declaration order only through "
+                       "sorted_fields",
+    },
+    "C16": {
+        "targets": ["fcp.serde:_Buffer.get_bit", "fcp.serde:_Buffer.read_word"] + [d for d in DECODERS_PROVED if d not in ("fcp.serde:_decode",)]
+                   + ["fcp.specs.type:NumericType.get_length", "fcp.specs.v2:FcpV2.get_enum", "fcp.specs.enum:Enum.get_packed_size"],
+        "native": "codec",
+        "trusted": [
+            "the theorem `every strict prefix of a valid encoding raises` is NOT proved as a whole: what is proved are the leaf-level clauses it "
+            "rests on (below); _decode_struct's loop step is not discharged",
+        ],
+        "explanation": "get_bit raises iff the bit lies outside the buffer; read_word raises iff any of its bits does; every scalar decoder raises "
+                       "iff its field extends past the input; the count prefix of strings / dynamic arrays, every announced character and the "
+                       "presence flag of optionals must lie inside the input (must_raise_if clauses); the cursor never moves backwards; the "
+                       "string loop consumes 8 bits of real input per completed iteration, so its work is bounded by the input length",
+    },
     "C02": {
-        "targets": BUFFER + LOOKUPS + ENCODERS + BIT_LEMMAS,
+        "targets": BUFFER + LOOKUPS + ENCODERS + BIT_LEMMAS + DECODERS_PROVED,
         "native": "codec",
         "trusted": CODEC_TRUSTED,
         "explanation": "encode direction of the canonical wire format: every encoder is proved to append exactly wire(fcp,T,v) (spec/wire.py, "
